@@ -1,0 +1,226 @@
+//go:build verif
+
+// Contracts for the deductive verifier in /verif (gocv); comments only.
+
+package journal
+
+// crcv(b): the masked CRC-32C stored in a chunk header for the bytes b (type byte followed by payload).
+//@ spec func crcv(b bytes) uint32 = crcmask(crcupd(0, b))
+
+// Ghost state of the writer: bytes handed to the underlying io.Writer so far, and the value of w.seq at the
+// last successful Next (a singleWriter is current exactly when its seq equals both).
+//@ ghost (*Writer).emitted int
+//@ ghost (*Writer).lastNext int
+// chunks: number of chunks of the current journal already completed by a block switch (first <==> chunks == 0).
+//@ ghost (*Writer).chunks int
+
+//@ pred (w *Writer).wf = w.lastNext <= w.seq && w.chunks >= 0 && (w.err == nil ==> (
+//@        0 <= w.i && w.i <= w.j && 0 <= w.written && w.written <= w.j && w.j <= blockSize && w.blockNumber >= 0 &&
+//@        (w.pending ==> w.written <= w.i && w.i + headerSize <= w.j) &&
+//@        (w.lastNext == w.seq ==> w.pending) &&
+//@        (w.pending ==> (w.first <==> w.chunks == 0)) &&
+//@        w.emitted == w.blockNumber*blockSize + w.written))
+
+// The underlying writer and flusher are external: they do not touch the journal writer's own state.
+//@ interface io.Writer.Write
+//@   params p
+//@   pure
+//@   ensures 0 <= ret0 && ret0 <= len(p)
+
+//@ interface journal.flusher.Flush
+//@   pure
+
+//@ interface journal.Dropper.Drop
+//@   pure
+
+//@ spec func chunkType(first bool, last bool) int = last ? (first ? fullChunkType : lastChunkType) : (first ? firstChunkType : middleChunkType)
+
+//@ func (*Writer).fillHeader
+//@   props C12
+//@   requires w.i >= 0 && w.i + headerSize <= w.j && w.j <= blockSize
+//@   ensures [type] w.buf[w.i+6] == chunkType(w.first, last)
+//@   ensures [len]  le16(w.buf, w.i+4) == w.j - w.i - headerSize
+//@   ensures [crc]  le32(w.buf, w.i) == crcv(bytes(w.buf[w.i+6 : w.j]))
+//@   ensures [payload] forall k int :: w.i + headerSize <= k && k < blockSize ==> w.buf[k] == old(w.buf)[k]
+//@   ensures [before] forall k int :: 0 <= k && k < w.i ==> w.buf[k] == old(w.buf)[k]
+//@   modifies w.buf[w.i : w.i+headerSize]
+
+//@ func (*Writer).writeBlock
+//@   props C12
+//@   requires w.err == nil && 0 <= w.written && w.written <= blockSize && w.blockNumber >= 0
+//@   requires w.emitted == w.blockNumber*blockSize + w.written
+//@   ensures w.i == 0 && w.j == headerSize && w.written == 0 && w.blockNumber == old(w.blockNumber) + 1
+//@   ensures [aligned] w.emitted == w.blockNumber*blockSize
+//@   modifies w.err, w.i, w.j, w.written, w.blockNumber, w.emitted
+//@   at call io.Writer.Write#1
+//@     ghost w.emitted = w.emitted + (blockSize - w.written)
+
+//@ func (*Writer).writePending
+//@   props C12
+//@   requires wf(w) && w.lastNext < w.seq
+//@   ensures wf(w)
+//@   ensures old(w.err) != nil ==> (w.err == old(w.err) && w.written == old(w.written) && w.pending == old(w.pending))
+//@   ensures old(w.err) == nil ==> (!w.pending && w.written == w.j)
+//@   ensures w.i == old(w.i) && w.j == old(w.j) && w.seq == old(w.seq) && w.lastNext == old(w.lastNext) && w.blockNumber == old(w.blockNumber) && w.first == old(w.first) && w.chunks == old(w.chunks)
+//@   modifies w.err, w.pending, w.written, w.emitted, w.buf[w.i : w.i+headerSize]
+//@   at call io.Writer.Write#1
+//@     ghost w.emitted = w.emitted + (w.j - w.written)
+
+//@ func (*Writer).Next
+//@   props C12
+//@   requires wf(w)
+//@   loop 1
+//@     invariant w.i <= k && k <= blockSize
+//@     invariant forall q int :: w.i <= q && q < k ==> w.buf[q] == 0
+//@     decreases blockSize - k
+//@     modifies w.buf[w.i : blockSize]
+//@   at before call (*Writer).writeBlock#1
+//@     assert [zero-padding] forall q int :: w.i <= q && q < blockSize ==> w.buf[q] == 0
+//@   at return
+//@     ghost w.lastNext = (ret1 == nil ? w.seq : w.lastNext)
+//@     ghost w.chunks = (ret1 == nil ? 0 : w.chunks)
+//@   ensures wf(w)
+//@   ensures w.seq == old(w.seq) + 1
+//@   ensures [sticky] old(w.err) != nil ==> ret1 == old(w.err)
+//@   ensures [ok] ret1 == nil ==> (w.err == nil && w.pending && w.first && w.lastNext == w.seq && w.i + headerSize == w.j)
+//@   ensures [fits] ret1 == nil && old(w.j) + headerSize <= blockSize ==> (w.i == old(w.j) && w.blockNumber == old(w.blockNumber))
+//@   ensures [pads] ret1 == nil && old(w.j) + headerSize > blockSize ==> (w.i == 0 && w.blockNumber == old(w.blockNumber) + 1)
+
+//@ func (*Writer).Flush
+//@   props C12
+//@   requires wf(w)
+//@   ensures wf(w)
+//@   ensures w.seq == old(w.seq) + 1
+//@   ensures [sticky] old(w.err) != nil ==> result == old(w.err)
+//@   ensures [ok] result == nil ==> (w.err == nil && !w.pending && w.written == w.j)
+
+//@ func (*Writer).Close
+//@   props C12
+//@   requires wf(w)
+//@   ensures wf(w)
+//@   ensures w.seq == old(w.seq) + 1
+//@   ensures [sticky] old(w.err) != nil ==> result == old(w.err)
+//@   ensures [closed] w.err != nil
+
+//@ func (*Writer).Reset
+//@   props C12
+//@   requires wf(w)
+//@   at return
+//@     ghost w.emitted = 0
+//@   ensures wf(w)
+//@   ensures w.err == nil && w.i == 0 && w.j == 0 && w.written == 0 && w.blockNumber == 0 && !w.pending
+
+//@ func (*Writer).Size
+//@   props C12
+//@   requires w != nil ==> wf(w)
+//@   ensures w != nil ==> result == w.blockNumber*blockSize + w.j
+
+//@ func (singleWriter).Write
+//@   props C12
+//@   requires x.w != nil && wf(x.w) && x.seq <= x.w.lastNext
+//@   loop 1
+//@     invariant wf(w) && w.err == nil && w.pending && w.seq == x.seq && w.lastNext == w.seq
+//@     invariant len(p) <= n0
+//@     decreases len(p)
+//@   at call (*Writer).writeBlock#1
+//@     ghost w.chunks = w.chunks + 1
+//@   ensures wf(x.w)
+//@   ensures [stale] x.seq != old(x.w.seq) ==> (ret1 != nil && ret0 == 0)
+//@   ensures [ok] ret1 == nil ==> ret0 == len(old(p))
+
+// ---------------------------------------------------------------------------
+// Reader
+
+//@ axiom global.errSkip: errSkip != nil && errSkip != io.EOF && errSkip != io.ErrUnexpectedEOF
+//@ axiom global.EOF: EOF != nil
+//@ axiom global.ErrUnexpectedEOF: ErrUnexpectedEOF != nil
+
+//@ pred (r *Reader).rwf = 0 <= r.i && r.i <= r.j && r.j <= r.n && r.n <= blockSize && r.err != errSkip
+
+// io.ReadFull fills a prefix of buf and reports a short read as an error.
+//@ interface io.ReadFull
+//@   params rd, buf
+//@   effects M$uint8
+//@   ensures 0 <= ret0 && ret0 <= len(buf)
+//@   ensures ret1 == nil <==> ret0 == len(buf)
+//@   ensures ret1 != errSkip
+//@   modifies buf[0:len(buf)]
+
+// A header that the reader accepts at offset h of a block with n valid bytes.
+//@ spec func validHeader(B []byte, h int, n int, first bool, ck bool) bool = h >= 0 && h + headerSize <= n && B[h+6] >= fullChunkType && B[h+6] <= lastChunkType && h + headerSize + le16(B, h+4) <= n && (ck ==> le32(B, h) == crcv(bytes(B[h+6 : h+headerSize+le16(B, h+4)]))) && (first ==> (B[h+6] == fullChunkType || B[h+6] == firstChunkType))
+
+//@ func (*Reader).corrupt
+//@   props C12 C08
+//@   ensures [strict] (r.strict && !skip) ==> (result != nil && result != errSkip && r.err == result)
+//@   ensures [tolerant] !(r.strict && !skip) ==> (result == errSkip && r.err == old(r.err))
+//@   modifies r.err
+
+//@ func (*Reader).nextChunk
+//@   props C12 C08
+//@   requires rwf(r) && r.i == r.j
+//@   loop 1
+//@     invariant rwf(r) && r.i == r.j && r.err == old(r.err)
+//@     invariant [first-visit] old(r.j) + headerSize <= old(r.n) ==> (r.i == old(r.i) && r.j == old(r.j) && r.n == old(r.n) && r.err == old(r.err) && r.last == old(r.last) && unchanged(r.buf))
+//@     modifies r.i, r.j, r.n, r.err, r.last, r.buf
+//@   ensures rwf(r)
+//@   ensures [accept] result == nil ==> validHeader(r.buf, r.i - headerSize, r.n, first, r.checksum)
+//@   ensures [accept-range] result == nil ==> (r.i >= headerSize && r.j == r.i + le16(r.buf, r.i-3) && r.last == (r.buf[r.i-1] == fullChunkType || r.buf[r.i-1] == lastChunkType))
+//@   ensures [skip] result == errSkip ==> (r.i == r.j && r.err == old(r.err))
+//@   ensures [ok-err] result == nil ==> r.err == old(r.err)
+//@   ensures [err-state] (result != nil && result != errSkip) ==> (r.err == result || (r.err == old(r.err) && result != io.EOF))
+//@   guarantees [roundtrip] validHeader(old(r.buf), old(r.j), old(r.n), first, r.checksum) ==> (result == nil && r.i == old(r.j) + headerSize && r.j == r.i + le16(old(r.buf), old(r.j)+4) && r.n == old(r.n) && (forall k int :: 0 <= k && k < blockSize ==> r.buf[k] == old(r.buf)[k]))
+//@   guarantees [drop-block] (old(r.j) + headerSize <= old(r.n) && result == errSkip && !validHeader(old(r.buf), old(r.j), old(r.n), false, r.checksum)) ==> (r.i == old(r.n) && r.j == old(r.n) && r.n == old(r.n))
+//@   guarantees [drop-strict] (old(r.j) + headerSize <= old(r.n) && r.strict && !validHeader(old(r.buf), old(r.j), old(r.n), false, r.checksum)) ==> (result != nil && result != errSkip && r.err == result)
+//@   guarantees [orphan] (validHeader(old(r.buf), old(r.j), old(r.n), false, r.checksum) && first && old(r.buf)[old(r.j)+6] != fullChunkType && old(r.buf)[old(r.j)+6] != firstChunkType) ==> (result == errSkip && r.i == r.j && r.j == old(r.j) + headerSize + le16(old(r.buf), old(r.j)+4))
+//@   modifies r.i, r.j, r.n, r.err, r.last, r.buf
+
+//@ func (*Reader).Next
+//@   props C12
+//@   requires rwf(r)
+//@   loop 1
+//@     invariant rwf(r) && r.i == r.j && r.err == nil && r.seq == old(r.seq) + 1
+//@     modifies r.i, r.j, r.n, r.err, r.last, r.buf
+//@   ensures rwf(r)
+//@   ensures r.seq == old(r.seq) + 1
+//@   ensures [sticky] old(r.err) != nil ==> (ret1 == old(r.err) && ret0 == nil)
+//@   ensures [ok] ret1 == nil ==> ret0 != nil
+//@   modifies r.seq, r.i, r.j, r.n, r.err, r.last, r.buf
+
+//@ func (*Reader).Reset
+//@   props C12
+//@   ensures rwf(r) && r.err == nil && r.i == 0 && r.j == 0 && r.n == 0 && r.last
+//@   ensures result == old(r.err)
+
+//@ func (*singleReader).Read
+//@   props C12
+//@   requires x.r != nil && rwf(x.r) && x.err != errSkip
+//@   requires base(p) != base(x.r.buf)
+//@   loop 1
+//@     invariant rwf(r) && x.err == nil && r.err == nil
+//@     modifies r.i, r.j, r.n, r.err, r.last, r.buf, x.err
+//@   ensures rwf(x.r) && x.err != errSkip
+//@   ensures [stale] x.seq != x.r.seq ==> (ret1 != nil && ret0 == 0)
+//@   ensures [count] 0 <= ret0 && ret0 <= len(p)
+//@   ensures [copied] ret1 == nil ==> (ret0 <= x.r.i && forall k int :: 0 <= k && k < ret0 ==> p[k] == x.r.buf[x.r.i - ret0 + k])
+//@   ensures [skip-is-error] ret1 != errSkip
+
+//@ func (*singleReader).ReadByte
+//@   props C12
+//@   requires x.r != nil && rwf(x.r) && x.err != errSkip
+//@   loop 1
+//@     invariant rwf(r) && x.err == nil && r.err == nil
+//@     modifies r.i, r.j, r.n, r.err, r.last, r.buf, x.err
+//@   ensures rwf(x.r) && x.err != errSkip
+//@   ensures [stale] x.seq != x.r.seq ==> ret1 != nil
+//@   ensures [byte] ret1 == nil ==> (x.r.i >= 1 && ret0 == x.r.buf[x.r.i - 1])
+//@   ensures [skip-is-error] ret1 != errSkip
+
+// Writer -> reader at chunk level: what fillHeader establishes is a header the reader accepts at the same offset.
+//@ lemma chunk_roundtrip(B []byte, h int, j int, n int, f bool, l bool, wantFirst bool, ck bool)
+//@   props C12
+//@   requires len(B) == blockSize && 0 <= h && h + headerSize <= j && j <= n && n <= blockSize
+//@   requires B[h+6] == chunkType(f, l) && le16(B, h+4) == j - h - headerSize && le32(B, h) == crcv(bytes(B[h+6 : j]))
+//@   requires wantFirst ==> f
+//@   ensures validHeader(B, h, n, wantFirst, ck)
+//@   ensures h + headerSize + le16(B, h+4) == j
+//@   ensures (B[h+6] == fullChunkType || B[h+6] == lastChunkType) <==> l
